@@ -1154,41 +1154,10 @@ where
     OO: AsRef<[u8]>,
 {
     fn partial_cmp(&self, other: &Rrsig<OO, NN>) -> Option<Ordering> {
-        match self.type_covered.partial_cmp(&other.type_covered) {
-            Some(Ordering::Equal) => {}
-            other => return other,
-        }
-        match self.algorithm.partial_cmp(&other.algorithm) {
-            Some(Ordering::Equal) => {}
-            other => return other,
-        }
-        match self.labels.partial_cmp(&other.labels) {
-            Some(Ordering::Equal) => {}
-            other => return other,
-        }
-        match self.original_ttl.partial_cmp(&other.original_ttl) {
-            Some(Ordering::Equal) => {}
-            other => return other,
-        }
-        match self.expiration.partial_cmp(&other.expiration) {
-            Some(Ordering::Equal) => {}
-            other => return other,
-        }
-        match self.inception.partial_cmp(&other.inception) {
-            Some(Ordering::Equal) => {}
-            other => return other,
-        }
-        match self.key_tag.partial_cmp(&other.key_tag) {
-            Some(Ordering::Equal) => {}
-            other => return other,
-        }
-        match self.signer_name.name_cmp(&other.signer_name) {
-            Ordering::Equal => {}
-            other => return Some(other),
-        }
-        self.signature
-            .as_ref()
-            .partial_cmp(other.signature.as_ref())
+        // Must agree with `Ord`, which is the canonical order: comparing
+        // the timestamps in serial number arithmetic or the signer name
+        // in name order would not.
+        Some(self.canonical_cmp(other))
     }
 }
 
